@@ -137,7 +137,8 @@ void run_exec(const ExecPlan &pl) {
         std::vector<size_t> picks;
         std::vector<size_t> firsts;
         for (size_t i = 0; i < n; ++i) if (i == 0 || data[i] != data[i - 1]) firsts.push_back(i);
-        size_t budget = n <= 40 ? firsts.size() : (pl.tags.size() && pl.tags[0] == "real_chunked") ? 60 : 40;
+        bool all_keys = pl.tags.size() > 1 && pl.tags[1] == "float_keys_narrow_slope";   // every key and its successor value
+        size_t budget = n <= 40 || all_keys ? firsts.size() : (pl.tags.size() && pl.tags[0] == "real_chunked") ? 60 : 40;
         if (firsts.size() <= budget) picks = firsts;
         else for (size_t j = 0; j < budget; ++j) picks.push_back(firsts[rng.below(firsts.size())]);
         size_t cc = pl.chunks > 1 ? (size_t) pl.chunks : (size_t) real_chunks;
@@ -298,7 +299,7 @@ void run_config(const Plan &p, int exhaustive_level) {
         });
     }
     // (2) structured random inputs
-    const std::vector<std::string> kinds = {"runs", "sawtooth", "collinear", "steps", "random", "seams"};
+    const std::vector<std::string> kinds = {"runs", "sawtooth", "collinear", "steps", "random", "seams", "runs_uniform"};
     int reps = quick ? 1 : 4;
     for (int rep = 0; rep < reps; ++rep)
         for (auto &kind : kinds) {
@@ -371,6 +372,13 @@ int main(int argc, char **argv) {
     run_config<uint8_t, 4, 4, float>(p, 0);
     run_config<int8_t, 2, 1, float>(p, 1);
 #else
+    {   // floating keys with slopes of the narrower type and small epsilon: the rounding slack is tightest here
+        Rng frng(p.seed ^ 0xf10a7);
+        for (int i = 0; i < (p.tier == "quick" ? 40 : 200); ++i) {
+            ExecPlan pl{i % 3 ? "runs_uniform" : "runs", 300 + frng.below(400), i % 4 == 3 ? 0 : 1, 0, false, {"runs", "float_keys_narrow_slope"}, frng.next(), {}};
+            if (i % 2) run_exec<double, 2, 1, float>(pl); else run_exec<double, 1, 1, float>(pl);
+        }
+    }
     run_real_chunked<int64_t, 64, 4, float>(p, p.tier == "quick" ? 1 : 6);
     run_config<int64_t, 1, 1, float>(p, 2);
     run_config<int64_t, 3, 2, float>(p, 1);
@@ -381,6 +389,7 @@ int main(int argc, char **argv) {
     run_config<float, 1, 1, float>(p, 1);
     run_config<float, 16, 4, float>(p, 0);
     run_config<double, 2, 1, float>(p, 1);
+    run_config<double, 1, 1, float>(p, 0);
     run_config<double, 16, 4, double>(p, 0);
     run_config<uint32_t, 2, 2, double>(p, 1);
 #endif
